@@ -2,7 +2,8 @@
 state, exit segment.  Used for the only `while` of the package (Pervaporation.calculate_partial_fluxes)."""
 import ast
 from .ir import *
-from .symex import Exec, Raised, Ret, explore, Path, Obj
+from .symex import Exec, Raised, Ret, explore, Path, Obj, same_shape, template
+from .ir import bvar
 from .source import Unsupported
 
 
@@ -30,7 +31,7 @@ def carried_names(w):
     return out
 
 
-def segments(cx, fdef, bind, havoc, contracts=None, pre=(), inv=None):
+def segments(cx, fdef, bind, havoc, contracts=None, pre=(), inv=None, known=('d', 'iterations', 'permeate_composition', 'permeate_composition_new')):
     """bind(ex) -> env at function entry.   havoc(ex, env, carried) -> None: replaces the loop-carried variables by an
     arbitrary head state (and may assume the loop invariant on it).
     returns (prefix_paths, head_paths):
@@ -44,6 +45,23 @@ def segments(cx, fdef, bind, havoc, contracts=None, pre=(), inv=None):
         env = bind(ex)
         ex.block(fdef.body[:widx], env)
         return Head(env, True)
+
+    def run_from_head_with(hv):
+        def run(ex):
+            env = bind(ex)
+            ex.block(fdef.body[:widx], env)
+            ex.prefix_env = dict(env)
+            ex.mark = len(ex.pc)
+            hv(ex, env, carried)
+            ex.head_env = dict(env)
+            if ex.decide(ex.truth(ex.eval(w.test, env), w), w):
+                ex.in_body = True
+                ex.block(w.body, env)
+                return Head(env, False)
+            ex.in_body = False
+            ex.block(fdef.body[widx + 1:], env)
+            return None
+        return run
 
     def run_from_head(ex):
         env = bind(ex)
@@ -61,5 +79,43 @@ def segments(cx, fdef, bind, havoc, contracts=None, pre=(), inv=None):
         return None
 
     pp = cx.explore(run_prefix, contracts=contracts, pre=pre)
-    hp = cx.explore(run_from_head, contracts=contracts, pre=pre)
+    # loop-carried variables the havoc does not know (e.g. introduced by a refactoring): their possible shapes at the head are
+    # inferred (prefix value + the values one iteration produces) and the head state forks over arbitrary values of each shape
+    unknown = sorted(carried - set(known))
+    if unknown:
+        shapes = {}
+        for _ in range(3):
+            def havoc1(ex, env, carried_, shapes=shapes):
+                havoc(ex, env, set(carried_) - set(unknown))
+                _havoc_unknown(ex, env, unknown, shapes)
+            probe = cx.explore(run_from_head_with(havoc1), contracts=contracts, pre=pre)
+            changed = False
+            for p in probe:
+                envs = [p.ex.prefix_env] if hasattr(p.ex, 'prefix_env') else []
+                if p.outcome == 'return' and isinstance(p.value, Head): envs.append(p.value.env)
+                for e in envs:
+                    for n in unknown:
+                        if n not in e: continue
+                        L = shapes.setdefault(n, [])
+                        if not any(same_shape(e[n], q) for q in L): L.append(e[n]); changed = True
+            if not changed: break
+        def havoc2(ex, env, carried_):
+            havoc(ex, env, set(carried_) - set(unknown))
+            _havoc_unknown(ex, env, unknown, shapes)
+        hp = cx.explore(run_from_head_with(havoc2), contracts=contracts, pre=pre)
+    else:
+        hp = cx.explore(run_from_head, contracts=contracts, pre=pre)
     return pp, hp, carried
+
+
+def _havoc_unknown(ex, env, unknown, shapes):
+    for n in unknown:
+        L = shapes.get(n) or []
+        if not L: continue                      # first probe: keep the prefix value
+        chosen = L[-1]
+        for i, sh in enumerate(L[:-1]):
+            if ex.decide(bvar("shape.%s.%d" % (n, i))): chosen = sh; break
+        v = template(chosen, "head.%s" % n)
+        inv = ex.read_invariant(v)
+        if inv is not None: ex.assume(inv, 'class invariant of a loop-carried object')
+        env[n] = v
